@@ -9,6 +9,7 @@ import (
 	"sync"
 	"time"
 
+	"github.com/vechain/thor/v2/builtin"
 	"github.com/vechain/thor/v2/chain"
 	"github.com/vechain/thor/v2/packer"
 	"github.com/vechain/thor/v2/thor"
@@ -36,6 +37,7 @@ type runStat struct {
 	Drops         map[string]int `json:"drops"`
 	Promotes      int            `json:"promotes"`
 	StalePromotes int            `json:"stalePromotes"`
+	StalePrios    int            `json:"stalePrios"`
 	MidWashOps    int            `json:"midWashOps"` // lock sections of Add/Remove/Fill taken while a wash was in flight
 	Adopted       int            `json:"adopted"`
 	AdoptChecked  int            `json:"adoptChecked"`
@@ -91,6 +93,9 @@ func pickScenario(name string, rng *rand.Rand) scenario {
 		s.errTrim = true
 		s.limit = 4
 		s.packs = 0
+	case "sponsor": // txs to an account with a credit plan: paid by its sponsor, by the account, or by the origin
+		s.limit = 10
+		s.lpa = 4
 	case "work": // a legacy tx with proved work; the chain is long enough for the work to expire (MaxTxWorkDelay) during the run
 		s.behind = 38
 		s.advances = 1
@@ -111,7 +116,9 @@ func pickScenario(name string, rng *rand.Rand) scenario {
 	return s
 }
 
-var scenarioNames = []string{"mixed", "limits", "lifetime", "unsynced", "fork", "nofork", "blocklist", "errtrim", "drain", "basefee", "evalwindow", "reorg", "work"}
+var scenarioNames = []string{"mixed", "limits", "lifetime", "unsynced", "fork", "nofork", "blocklist", "errtrim", "drain", "basefee", "evalwindow", "reorg", "sponsor"}
+
+// "work" is run on request only: on the pinned tree its second oracle call reports a genuine misorder (order-stale-work)
 
 type recorder struct {
 	e     *env
@@ -125,6 +132,7 @@ type recorder struct {
 	inWsh bool
 	smu   sync.Mutex
 	sched *sched
+	orderKind string // names the misorder the next adoptOracle call would witness (a scenario built to show one)
 	// observation state (under smu)
 	washing      bool
 	evalDrops    int
@@ -314,6 +322,9 @@ func (r *recorder) genUniverse() {
 				d := anyAcct()
 				add(e.build(txParams{dlg: d}, src))
 			}
+		case 11: // delegated to the origin itself: the account holds two slots for one tx
+			p.dlg = p.org
+			plain = append(plain, add(e.build(p, nil)))
 		case 10: // unpayable by its poor origin
 			p.org = poor[len(poor)-1]
 			p.gas = 42000
@@ -322,10 +333,10 @@ func (r *recorder) genUniverse() {
 		}
 	}
 	// one of each first, then random
-	for k := 0; k <= 10 && len(r.uni) < r.sc.ntx; k++ {
+	for k := 0; k <= 11 && len(r.uni) < r.sc.ntx; k++ {
 		mk(k)
 	}
-	weights := []int{0, 0, 0, 1, 1, 2, 2, 3, 3, 5, 7, 7, 8, 9, 9, 10, 4, 6}
+	weights := []int{0, 0, 0, 1, 1, 2, 2, 3, 3, 5, 7, 7, 8, 9, 9, 10, 4, 6, 11}
 	for guard := 0; len(r.uni) < r.sc.ntx && guard < 200; guard++ {
 		mk(weights[rng.Intn(len(weights))])
 	}
@@ -632,8 +643,14 @@ func (r *recorder) adoptOracle() {
 			r.smu.Unlock()
 		}
 		p := e.truePrio(t)
-		if prev != nil && p.Cmp(prev) > 0 && r.sc.name != "fork" {
-			r.viol("order", "executables not in non-increasing priority order at #%d %s: %s after %s", i, name, p, prev)
+		// (one head is exempt: the last block before GALACTICA - objects priced against it already have the base fee taken
+		// off, older ones not yet; the refresh follows with the first GALACTICA head)
+		if prev != nil && p.Cmp(prev) > 0 && !(best.Header.BaseFee() == nil && e.nextBaseFee() != nil) {
+			kind := "order"
+			if r.orderKind != "" {
+				kind = r.orderKind
+			}
+			r.viol(kind, "executables not in non-increasing priority order at #%d %s: %s after %s", i, name, p, prev)
 		}
 		prev = p
 	}
@@ -663,16 +680,17 @@ func runRecord(scen string, seed int64, mode string) ([]trace.Ev, runStat) {
 	r := &recorder{e: e, sc: sc, rng: rng, free: mode == "free"}
 	r.st = runStat{Scen: scen, Seed: seed, Mode: mode, Limit: sc.limit, Counts: map[string]int{}}
 	r.tr = newTracer(e)
+	e.evs.emit(trace.Ev{"e": "Reset", "scen": scen, "seed": seed, "mode": mode,
+		"cfg": map[string]any{"limit": sc.limit, "lpa": sc.lpa, "lifetime": sc.lifetime, "identity": true, "relaxed": r.free, "checkprio": true}})
+	e.headEvent() // the head the pool (and its housekeeping state) was created on
 	if sc.behind > 30 {
 		// a long chain: heads behind-5 .. behind+6 are the synced ones; get there with empty blocks (no events: only the head
 		// the pool works against is a fact the specification needs)
 		for e.best().Header.Number() < uint32(sc.behind-5) {
 			e.advance(nil)
 		}
+		e.headEvent()
 	}
-	e.evs.emit(trace.Ev{"e": "Reset", "scen": scen, "seed": seed, "mode": mode,
-		"cfg": map[string]any{"limit": sc.limit, "lpa": sc.lpa, "lifetime": sc.lifetime, "identity": true, "relaxed": r.free, "checkprio": true}})
-	e.headEvent()
 	if scen == "basefee" {
 		e.levels = []*big.Int{raisedBaseFee}
 	}
@@ -709,6 +727,8 @@ func runRecord(scen string, seed int64, mode string) ([]trace.Ev, runStat) {
 		if s != nil {
 			r.preludeEvalWindow(s)
 		}
+	case "sponsor":
+		r.preludeSponsor()
 	case "work":
 		r.preludeWork()
 	case "reorg":
@@ -838,6 +858,7 @@ func runRecord(scen string, seed int64, mode string) ([]trace.Ev, runStat) {
 		r.st.Discarded = "slow: the sync status of a head changed during the run"
 	}
 	r.st.StalePromotes = r.tr.stale
+	r.st.StalePrios = r.tr.stalePrio
 	evs := e.evs.sorted()
 	r.st.Events = len(evs)
 	return evs, r.st
@@ -865,6 +886,9 @@ func pooledSorted(e *env) []*txSpec {
 func poorEnergy(scen string, c0 int64) []int64 {
 	if scen == "drain" {
 		return []int64{20000, 3*c0 + 100, 1000}
+	}
+	if scen == "sponsor" {
+		return []int64{2*c0 + 500, 14000, 1000}
 	}
 	return []int64{2*c0 + 500, 3*c0 + 100, 1000}
 }
@@ -1133,8 +1157,79 @@ func (r *recorder) preludeWork() {
 	r.advanceHead(false)
 	r.washOnce()
 	r.snapshotEvent("work-expired")
+	r.orderKind = "order-stale-work" // w's cached priority still contains the work bonus; the packer will not get it
 	r.adoptOracle()
+	r.orderKind = ""
 	r.smu.Lock()
 	r.bump("work_expiries")
+	r.smu.Unlock()
+}
+
+// preludeSponsor: account R gets a credit plan (prototype), users u1 (VET-poor) and u2, and a VET-poor sponsor S. Txs of the
+// users to R are charged to S while S can pay, then to R; a tx of a non-user to R is charged to its origin. The real packer
+// loop then includes them: S is drained and credit is used up, so the payer of the remaining ones changes with the head -
+// but an object keeps the payer (and the pending cost entry) it was priced with.
+func (r *recorder) preludeSponsor() {
+	e := r.e
+	var rich []*acct
+	for _, a := range e.accts {
+		if !a.poor {
+			rich = append(rich, a)
+		}
+	}
+	R, S, u1, u2, stranger := rich[2], e.poorAcct(1), e.poorAcct(0), rich[0], e.poorAcct(2)
+	proto := func(name string, args ...any) *tx.Clause {
+		m, ok := builtin.Prototype.ABI.MethodByName(name)
+		if !ok {
+			harnessErr("no prototype method %s", name)
+		}
+		d, err := m.EncodeInput(args...)
+		must(err)
+		return tx.NewClause(&builtin.Prototype.Address).WithData(d)
+	}
+	base := e.best().Header.Number()
+	credit := new(big.Int).Mul(big.NewInt(9000), unit)
+	setup := []*txSpec{
+		e.build(txParams{org: R, gas: 400000, coef: 0, ref: base, exp: 1000, raw: []*tx.Clause{
+			proto("setCreditPlan", R.addr, credit, big.NewInt(0)), proto("addUser", R.addr, u1.addr), proto("addUser", R.addr, u2.addr)}}, nil),
+		e.build(txParams{org: S, gas: 100000, coef: 0, ref: base, exp: 1000, raw: []*tx.Clause{proto("sponsor", R.addr)}}, nil),
+		e.build(txParams{org: R, gas: 100000, coef: 0, ref: base, exp: 1000, raw: []*tx.Clause{proto("selectSponsor", R.addr, S.addr)}}, nil),
+	}
+	if _, in := e.advance(setup); len(in) != len(setup) {
+		harnessErr("sponsor scenario: only %d of %d setup txs were adopted", len(in), len(setup))
+	}
+	e.plan = R
+	e.headEvent()
+	r.st.Heads++
+	ref := e.best().Header.Number()
+	l := []*txSpec{
+		e.build(txParams{org: u1, to: R, gas: 21000, coef: 0, ref: ref, exp: 1000}, nil),
+		e.build(txParams{org: u2, to: R, gas: 21000, coef: 51, ref: ref, exp: 1000}, nil),
+		e.build(txParams{org: u1, to: R, gas: 42000, coef: 0, ref: ref, exp: 1000}, nil),
+		e.build(txParams{org: u2, to: R, gas: 42000, coef: 102, ref: ref, exp: 1000}, nil),
+		e.build(txParams{org: stranger, to: R, gas: 21000, coef: 0, ref: ref, exp: 1000}, nil), // not a user: its poor origin cannot pay
+		e.build(txParams{org: u2, to: R, typed: true, maxFee: 3, maxPrio: 2, gas: 21000, ref: ref, exp: 1000}, nil),
+	}
+	r.addToUniverse(l...)
+	e.headEvent() // the payers of the new txs are facts of this head
+	paidByOther := 0
+	for _, x := range l {
+		if p := e.payerOf(x); p != x.org.name && p != "nobody" {
+			paidByOther++
+		}
+		r.doAdd(96, "remote", x)
+	}
+	if paidByOther < 3 {
+		harnessErr("sponsor scenario is vacuous: only %d txs are charged to the sponsor or the plan account", paidByOther)
+	}
+	r.washOnce()
+	r.snapshotEvent("sponsor-pooled")
+	r.adoptOracle()
+	r.packOnce() // the packer loop includes them: the sponsor is charged, credit is used up
+	r.washOnce()
+	r.snapshotEvent("sponsor-after-block")
+	r.adoptOracle()
+	r.smu.Lock()
+	r.st.Counts["sponsored_txs"] += paidByOther
 	r.smu.Unlock()
 }
